@@ -507,7 +507,10 @@ static int analyze_struct(fb_parser_t *P, fb_compound_type_t *ct)
 
     assert(ct->symbol.kind == fb_is_struct);
 
-    assert(!(ct->symbol.flags & fb_circular_open));
+    if (ct->symbol.flags & fb_circular_open) {
+        /* Left open by an earlier error (nesting limit). */
+        return -1;
+    }
     if (ct->symbol.flags & fb_circular_closed) {
         return 0;
     }
@@ -540,6 +543,10 @@ static int analyze_struct(fb_parser_t *P, fb_compound_type_t *ct)
             if (member->type.ct->symbol.kind == fb_is_enum) {
                 type = member->type.ct;
                 size = type->size;
+                if (size < 1) {
+                    /* Old error: enum without a valid type. */
+                    return -1;
+                }
                 member->align = (uint16_t)size;
                 member->size = member->type.len * type->size;
                 break;
@@ -875,7 +882,10 @@ static fb_member_t *align_order_members(fb_parser_t *P, fb_member_t *members)
             k = next->align;
             break;
         }
-        assert(k > 0);
+        if (k == 0) {
+            /* Member skipped by an earlier error (e.g. duplicate name): just have some sane behavior. */
+            return original_order_members(P, members);
+        }
         i = 0;
         while (k >>= 1) {
             ++i;
